@@ -37,7 +37,7 @@ pub fn to_u8<A: Codec, const N: usize, const W: usize>() {
     assume(n >= 1 && n <= 8 && n * b <= 8 && a <= N && n <= N - a);
     let v: u8 = (&s[a..a + n]).into();
     assert!(v as usize == bits_at(&w, a * b, n * b), "C04.u8.value");
-    reach!((a * b) % 64 + n * b > 64, "straddles");
+    reach!((a * b) % 64 + n * b > 64 || b == 8, "straddles");
 }
 
 /// integer -> k-mer -> symbols / integer, usize storage
